@@ -54,9 +54,12 @@ def run_case(case):
     try:
         out = OutStream(term, pty)
         if case.get("hide_cursor", True) and case.get("junk", 0) % 2:
-            win = FullscreenWindow(out_stream=out)  # hide_cursor defaults to True
+            win, e = call(lambda: FullscreenWindow(out_stream=out))  # hide_cursor defaults to True
         else:
-            win = FullscreenWindow(out_stream=out, hide_cursor=case.get("hide_cursor", True))
+            win, e = call(lambda: FullscreenWindow(out_stream=out, hide_cursor=case.get("hide_cursor", True)))
+        if e is not None:
+            res.viol("constructor_raised", error=exc_str(e), case=case)
+            return res
         _, e = call(win.__enter__)
         if e is not None:
             res.viol("enter_raised", error=exc_str(e))
